@@ -23,7 +23,13 @@ func (br *BrotliReader) Read(p []byte) (n int, err error) {
 	if br.br == nil {
 		br.br = brotli.NewReader(br.Body)
 	}
-	return br.br.Read(p)
+	n, err = br.br.Read(p)
+	if err != nil {
+		// brotli.Reader does not remember its errors: a failed Read would be
+		// followed by io.EOF (the end of the underlying body).
+		br.berr = err
+	}
+	return n, err
 }
 
 func (br *BrotliReader) Close() error {
